@@ -3,6 +3,7 @@ from ..cfg import cfg_of
 from ..defuse import du_of, walk, peel, callee_name, fmt
 from ..conds import lits_of
 from ..callgraph import cg_of
+from ..roles import roles_of
 from ..common import arg_term, contains_call, call_named, field_path, ADAPTER_TRAIT, is_adapter_impl
 from ..backends import backends, classify_effect, sql_literals
 from .. import engine
@@ -25,6 +26,7 @@ DESTRUCTIVE_FS = {"remove_file", "remove_dir", "remove_dir_all", "rename", "set_
 
 
 def run(facts, res):
+    R = roles_of(facts)
     cg = cg_of(facts)
     res.rule("N1", "the storage key is the hash of exactly the bytes written (no mutation in between); block index from the serialised parents")
     res.rule("N2", "no delete / overwrite capability exists or is reachable from the storage API")
@@ -44,10 +46,10 @@ def run(facts, res):
             if c is None:
                 continue
             direct = c.trait == ADAPTER_TRAIT and c.name == "write_object"
-            via = c.target() == "datastorage::DataStorage::write_raw_item"
+            via = c.target() == R.path("raw_write")
             if not (direct or via):
                 continue
-            if b.path == "datastorage::DataStorage::write_raw_item":
+            if b.path == R.path("raw_write"):
                 continue   # pass-through: obligations are on its callers
             n1 += 1
             key = arg_term(b, t, 1, 40)
@@ -175,21 +177,21 @@ def run(facts, res):
         pe = facts.const_str("constants::PACK_EXTENSION")
         for cb in facts.closures_of(m.path):
             for bi, t in cb.calls():
-                if t.callee is None or t.callee.name != "write_raw_item":
+                if t.callee is None or t.callee.name != R.name("raw_write"):
                     continue
                 key = arg_term(cb, t, 1, 30)
                 data = arg_term(cb, t, 2, 30)
                 if pe in [x[2] for x in walk(key) if x[0] == "const" and x[1] == "str"]:
                     n4 += 1
                     src = _view_source(data)
-                    ok = src is not None and callee_name(src) == "try_load_pack"
+                    ok = src is not None and callee_name(src) == R.name("pack_loader")
                     same = ok and bool({x[1] for x in walk(src[2][1]) if x[0] == "param"} & {x[1] for x in walk(key) if x[0] == "param"})
                     res.instance("N4", "%s: pack bytes written = unmodified result of the verified loader for the same id: %s" % (cb.path, ok and same), cb.loc(t.line))
                     if not (ok and same):
                         res.violation("N4", "meld|pack-not-copied-verbatim", "meld writes pack bytes that are not the unmodified result of try_load_pack for the same pack id (%s)" % fmt(data, 5), cb.loc(t.line))
                 elif contains_call(key, "melda::DeltaId::key"):
                     n4 += 1
-                    ok = contains_call(data, "to_json_string") and contains_call(data, "load_raw_delta") and contains_call(data, "fetch_raw_delta")
+                    ok = contains_call(data, "to_json_string") and contains_call(data, R.name("loader")) and contains_call(data, R.name("fetcher"))
                     res.instance("N4", "%s: block bytes = to_json_string(load_raw_delta(fetch_raw_delta(id))) - the serializer commit uses: %s" % (cb.path, ok), cb.loc(t.line))
                     if not ok:
                         res.violation("N4", "meld|block-not-from-verified-loader", "meld writes block bytes that do not come from the verified loader + the commit serializer (%s)" % fmt(data, 5), cb.loc(t.line))
@@ -201,7 +203,7 @@ def run(facts, res):
                 res.violation("N4", "commit|different-serializer", "commit no longer serialises blocks with Delta::to_json_string (meld re-serialises with it)", cm.loc())
     # N4b: meld re-serialises blocks through the loader, so the loader may normalise a field (drop it when empty) only if
     # commit never writes that field empty
-    ld = facts.body("melda::Melda::load_raw_delta")
+    ld = R.body("loader")
     cm = facts.body("melda::Melda::commit")
     if ld is not None and cm is not None:
         from ..flows import flow_of
@@ -252,12 +254,12 @@ def run(facts, res):
                         if somes and all(any(l.kind == "call" and callee_name(l.term) == "is_empty" and l.truth is False for l in lits_of(cm, sb, facts)) for sb in somes):
                             writer_nonempty.add(n_)
                         t = du_c.operand_term(op, 16)
-                        if contains_call(t, "map") and contains_call(t, "pack"):
+                        if contains_call(t, "map") and contains_call(t, R.name("pack_writer")):
                             writer_nonempty.add(n_)   # Option<String> mapped to a one-element set
         res.instance("N4", "loader drops empty %s; commit never writes empty %s" % (sorted(guarded), sorted(writer_nonempty)), ld.loc())
         for f_ in sorted(guarded):
             if f_ not in writer_nonempty:
-                res.violation("N4", "load_raw_delta|normalises:%s" % f_,
+                res.violation("N4", "block-loader|normalises:%s" % f_,
                               "load_raw_delta drops the block field `%s` when it is empty, but commit can write it empty: meld re-serialises blocks through the "
                               "loader, so the copy's bytes no longer hash to the block's name" % f_, ld.loc())
     res.floor("N4", "meld pack/block copy sites", n4, 2)
